@@ -34,15 +34,16 @@ def model_check(w, tag, steps):
 
 
 def generate(w, tag, seed, num, steps):
-    cfg = _cfg(w, "gen.cfg", {"MaxSteps": steps, "Plans": "<- MC_GenPlans"}, ["Emit"], props=False)
-    g = tlc("MC_Lifecycle", cfg, tag + "-gen", workers=1, timeout=900, simulate=num, depth=steps + 1, seed=seed)
     seen, out = set(), []
-    for r in g.replays:
-        k = json.dumps([s["cmd"] for s in r["steps"]], sort_keys=True)
-        if k not in seen:
-            seen.add(k)
-            # every other behaviour produces the rotated root with `tuftool root` commands instead of the harness's writer
-            out.append({"names": NAMES, "max_content": 2, "steps": r["steps"], "tool_roots": len(out) % 2 == 1})
+    for fam, n in (("MC_GenPlans", num), ("MC_RotPlans", max(10, num // 5))):
+        cfg = _cfg(w, f"gen-{fam}.cfg", {"MaxSteps": steps, "Plans": "<- " + fam}, ["Emit"], props=False)
+        g = tlc("MC_Lifecycle", cfg, f"{tag}-gen-{fam}", workers=1, timeout=900, simulate=n, depth=steps + 1, seed=seed)
+        for r in g.replays:
+            k = json.dumps([s["cmd"] for s in r["steps"]], sort_keys=True)
+            if k not in seen:
+                seen.add(k)
+                # every other behaviour produces the rotated root with `tuftool root` commands instead of the harness's writer
+                out.append({"names": NAMES, "max_content": 2, "steps": r["steps"], "tool_roots": len(out) % 2 == 1})
     return out
 
 
